@@ -368,6 +368,9 @@ type driver struct {
 	closeCalled bool
 	closeRet    bool
 
+	script   []string // forced answers (regression scenarios)
+	scripted bool
+
 	labels []string
 	obs    []string
 	feats  map[string]bool
@@ -406,6 +409,11 @@ func errFor(cls string, r *rand.Rand) (int16, error) {
 }
 
 func (d *driver) randAns(pOk int) string {
+	if len(d.script) > 0 {
+		a := d.script[0]
+		d.script = d.script[1:]
+		return a
+	}
 	if d.r.Intn(100) < pOk {
 		return "ok"
 	}
@@ -503,6 +511,10 @@ func (d *driver) serveRun() {
 	case "join":
 		c := d.await("join", nil)
 		seen := memberTok(c.member)
+		if c.member == "" && d.cHeld != "" && !d.cLeaveSeen {
+			// the client came back without the id it was given and never tried to leave with it
+			d.ob("DROPPEDID")
+		}
 		a := d.randAns(80)
 		if a != "ok" {
 			code, err := errFor(a, d.r)
@@ -511,8 +523,7 @@ func (d *driver) serveRun() {
 			c.reply <- reply{join: kafka.VerifJoinAnswer{ErrorCode: code}, asField: d.r.Intn(2) == 0, err: err}
 			d.lab("Je:" + a)
 			d.ob("j" + seen)
-			d.held = -1
-			d.cHeld = ""
+			// joinGroup returns the id it was given: run leaves with it (unless RebalanceInProgress)
 			d.failNG(a)
 			return
 		}
@@ -520,11 +531,14 @@ func (d *driver) serveRun() {
 		if d.held >= 0 && d.r.Intn(3) > 0 {
 			m = d.held
 		}
+		if d.scripted {
+			m = 1
+		}
 		d.joinGen++
 		ja := kafka.VerifJoinAnswer{GenerationID: 100 + d.joinGen, GroupProtocol: "range", LeaderID: "m0", MemberID: memberStr(m)}
 		ld := "n"
 		lfail := ""
-		if d.r.Intn(2) == 0 {
+		if !d.scripted && d.r.Intn(2) == 0 {
 			ld = "l"
 			ja.LeaderID = ja.MemberID
 			ja.Members = []kafka.VerifMember{{ID: ja.MemberID, Topics: d.topics}, {ID: "m0", Topics: d.topics}}
@@ -1045,6 +1059,9 @@ func (d *driver) hbFail(k int) {
 	}
 	c := d.await("hb", func(x *call) bool { return x.gen == g.wireID })
 	a := []string{"rb", "ka", "dr"}[d.r.Intn(3)]
+	if d.scripted {
+		a = "rb"
+	}
 	code, err := errFor(a, d.r)
 	d.lab("HB:" + hx(idx) + ":" + a)
 	d.ob("h" + hx(k) + "." + hx(idx) + "." + memberTok(c.member))
@@ -1203,7 +1220,7 @@ func runE2E(r *rand.Rand, forced string) {
 		nextPending: map[int]chan nextRes{}, nextCancel: map[int]context.CancelFunc{}, feats: map[string]bool{}}
 	d.nwatch = []int{0, 0, 1, 2}[r.Intn(4)]
 	d.longBack = r.Intn(4) == 0
-	if forced == "f5" {
+	if forced != "" {
 		d.nwatch, d.longBack = 0, false
 	}
 	d.backoff = 3 * time.Millisecond
@@ -1278,6 +1295,28 @@ func runE2E(r *rand.Rand, forced string) {
 				d.feats["leave"] = true
 				d.finishLeave()
 			}
+			d.settle()
+			return
+		}
+		if forced == "joinerr" {
+			// regression for the second fixed defect: generation 0 of member 1 ends on a heartbeat
+			// answered RebalanceInProgress, the re-join with id 1 gets a dropped connection; the
+			// coordinator must see LeaveGroup for 1; then Close while the error is offered
+			d.scripted = true
+			d.script = []string{"ok", "ok", "ok", "ok", "ok", "dr", "ok", "ok"}
+			for i := 0; i < 4; i++ {
+				d.serveRun() // coordinator, join, sync, fetch
+			}
+			d.settle()
+			d.callNext()
+			d.settle()
+			d.hbFail(0)
+			d.settle()
+			d.serveRun() // coordinator
+			d.serveRun() // join: dropped
+			d.serveRun() // leave: coordinator
+			d.serveRun() // leave: request
+			d.callClose()
 			d.settle()
 			return
 		}
@@ -1441,6 +1480,9 @@ func main() {
 	r := rand.New(rand.NewSource(*seed))
 	if *only == "" || *only == "f5" {
 		runE2E(r, "f5")
+	}
+	if *only == "" || *only == "joinerr" {
+		runE2E(r, "joinerr")
 	}
 	if *only == "" || *only == "wire" {
 		runWireF5()
